@@ -98,7 +98,7 @@ def compare_outcomes(world, results):
             if len(r) > 4 and len(oc) > 4 and (r[4] or oc[4]):
                 # Awkward values resolve their class through the global registry: outcomes are comparable
                 # only between executions that saw the same registration state throughout the op
-                if r[2] != r[3] or oc[2] != oc[3] or r[2] != oc[2]:
+                if r[2] != r[3] or oc[2] != oc[3] or r[2] != oc[2] or r[2] == 1:
                     continue
             if r[0] != oc[0]:
                 op = _op_of(world, key)
